@@ -478,6 +478,99 @@ fn bare_runtime_probe(rep: &mut Report, when: &str) {
     }
 }
 
+/// Where on the machine stack a call happens, and what other threads are doing at that moment,
+/// are part of the "history" a pure function must not see. (a) One thread with a large stack
+/// compiles and searches from a shallow frame, then from frames megabytes further down (and back
+/// up): same outcomes. (b) Many threads search individually modest but nested expressions at the
+/// same instant: same outcomes as each search alone. Expected values are known by construction.
+fn stack_and_neighbours_probe(rep: &mut Report) {
+    fn descend(levels: usize, f: &mut dyn FnMut()) {
+        // each frame keeps 64 KiB alive
+        let pad = [levels as u8; 65536];
+        if levels == 0 {
+            f();
+        } else {
+            descend(levels - 1, f);
+        }
+        std::hint::black_box(&pad);
+    }
+    let outcomes = std::thread::Builder::new()
+        .stack_size(64 << 20)
+        .spawn(|| {
+            let doc = rcvar_of(&json!({"foo": {"bar": 7}, "xs": [3, 1, 2]}));
+            let probe = |tag: &str, out: &mut Vec<(String, String)>| {
+                for text in ["foo.bar", "sort(xs)[0]", "[[[[foo.bar]]]]", "xs[?@ > `1`] | length(@)", "abs(foo)"] {
+                    let r = fingerprint(&jmespath::compile(text).and_then(|e| e.search(&doc)));
+                    out.push((format!("{}:{}", tag, text), r));
+                }
+            };
+            let mut out = vec![];
+            probe("shallow", &mut out);
+            for mib in [1usize, 2, 4, 8, 24] {
+                let mut at_depth = vec![];
+                descend(mib * 16, &mut || probe(&format!("{}MiB-down", mib), &mut at_depth));
+                out.extend(at_depth);
+                probe("shallow-again", &mut out);
+            }
+            out
+        })
+        .expect("spawn")
+        .join();
+    match outcomes {
+        Ok(list) => {
+            let want: std::collections::HashMap<&str, &str> =
+                [("foo.bar", "ok:7"), ("sort(xs)[0]", "ok:1"), ("[[[[foo.bar]]]]", "ok:[[[[7]]]]"), ("xs[?@ > `1`] | length(@)", "ok:2")].iter().cloned().collect();
+            for (tag, got) in list {
+                rep.evaluations += 1;
+                let text = tag.splitn(2, ':').nth(1).unwrap_or("");
+                let ok = match want.get(text) {
+                    Some(w) => got == *w,
+                    None => got.starts_with("err:type:3:"),
+                };
+                if ok {
+                    rep.count("stack_position_independent");
+                } else {
+                    rep.violation("C13/result-depends-on-history/position-on-the-stack", json!({"where_and_what": tag, "observed": got}));
+                }
+            }
+        }
+        Err(_) => rep.violation("C13/panic/stack-probe-thread", json!({})),
+    }
+    // (b) simultaneous nested searches
+    let threads = 16;
+    let depth = 90;
+    let text = format!("{}foo.bar{}", "[".repeat(depth), "]".repeat(depth));
+    let want = format!("ok:{}7{}", "[".repeat(depth), "]".repeat(depth));
+    let barrier = std::sync::Arc::new(std::sync::Barrier::new(threads));
+    let hs: Vec<_> = (0..threads)
+        .map(|t| {
+            let (text, want, barrier) = (text.clone(), want.clone(), barrier.clone());
+            std::thread::spawn(move || {
+                let doc = rcvar_of(&json!({"foo": {"bar": 7}}));
+                let e = jmespath::compile(&text);
+                let mut bad = vec![];
+                for round in 0..40 {
+                    barrier.wait();
+                    let g = fingerprint(&e.clone().and_then(|x| x.search(&doc)));
+                    let flat = fingerprint(&jmespath::compile("foo.bar").and_then(|x| x.search(&doc)));
+                    if g != want || flat != "ok:7" {
+                        bad.push(json!({"thread": t, "round": round, "nested": g.chars().take(120).collect::<String>(), "flat": flat}));
+                    }
+                }
+                bad
+            })
+        })
+        .collect();
+    for h in hs {
+        rep.evaluations += 80;
+        match h.join() {
+            Ok(bad) if bad.is_empty() => rep.count("simultaneous_nested_searches_ok"),
+            Ok(bad) => rep.violation("C13/result-depends-on-history/what-other-threads-are-doing", json!({"threads": threads, "nesting": depth, "first": bad[0]})),
+            Err(_) => rep.violation("C13/panic/neighbour-probe-thread", json!({})),
+        }
+    }
+}
+
 pub fn run(args: &Args) {
     let mut rep = Report::new("C13");
     // first library use of this process: nothing has touched any runtime yet
@@ -487,6 +580,9 @@ pub fn run(args: &Args) {
     });
     let _ = other.join();
     bare_runtime_probe(&mut rep, "after another thread used the default runtime");
+    if args.shard == 0 {
+        stack_and_neighbours_probe(&mut rep);
+    }
     gap_sweep(&mut rep, args);
     family_sweep(&mut rep, args);
     one_byte_variants(&mut rep, args);
